@@ -4,7 +4,7 @@ from typing import TYPE_CHECKING
 
 import numpy as np
 
-from ..actions._base import ActionGroup
+from ..actions._base import ActionGroup, atomic
 from ..actions.update_segmentation import UpdateNodeSeg
 from .user_add_node import UserAddNode
 from .user_delete_node import UserDeleteNode
@@ -14,6 +14,7 @@ if TYPE_CHECKING:
 
 
 class UserUpdateSegmentation(ActionGroup):
+    @atomic
     def __init__(
         self,
         tracks: SolutionTracks,
